@@ -69,6 +69,7 @@ class MosekWrapper(Wrapper):
         self._nb_pep_constraints_in_mosek = 0
         self._list_of_psd_constraints_sent_to_solver = list()
         self._nb_pep_SDPconstraints_in_mosek = 0
+        self._entries_index_in_mosek = list()  # for each LMI, indices of the MOSEK constraints of its entries.
 
         import mosek
 
@@ -188,11 +189,14 @@ class MosekWrapper(Wrapper):
         psd_index_in_mosek = self._nb_pep_SDPconstraints_in_mosek - 1
 
         # Store one correspondence constraint per entry of the matrix
+        entries_index_in_mosek = np.zeros(psd_matrix.shape, dtype=int)
+        self._entries_index_in_mosek.append(entries_index_in_mosek)
         for i in range(psd_matrix.shape[0]):
             for j in range(psd_matrix.shape[1]):
                 A_i, A_j, A_val, a_i, a_val, alpha_val = expression_to_sparse_matrices(psd_matrix[i, j])
                 # how many constraints in the task so far? This will be the constraint number
                 nb_cons = self.task.getnumcon()
+                entries_index_in_mosek[i, j] = nb_cons
                 # add a constraint in mosek
                 self.task.appendcons(1)
                 # in MOSEK format: matrices corresponding to the quadratic part of the expression
@@ -244,6 +248,10 @@ class MosekWrapper(Wrapper):
                 dual_values.append(-self._get_Gram_from_mosek(self.task.getbarsj(mosek.soltype.itr, counter_psd),
                                                               constraint_or_psd.shape[0]))
                 assert dual_values[-1].shape == constraint_or_psd.shape
+                # Store the dual values of the correspondences between the entries of the matrix and the expressions
+                # (each of them is sent as "expression - entry = 0", hence the sign).
+                constraint_or_psd.entries_dual_variable_value = -np.array(
+                    scalar_dual_values)[self._entries_index_in_mosek[counter_psd - 1]]
                 counter_psd += 1
             else:
                 raise TypeError("The list of constraints that are sent to CVXPY should contain only"
